@@ -202,6 +202,8 @@ class FV:
         return self.ctx.show(t) if t is not None else "<absent>"
 
     def eq(self, a, b):
+        if a is None or b is None:
+            return False
         return self.ctx.eq(a, b)
 
     def src(self, node):
